@@ -119,7 +119,8 @@ chk(
     "interpreter::interpret against a skeleton table transcribed from the specification (what each arm returns, "
     "short-circuit, null-dropping projection, one-level flatten, multi-select null handling and unconditional collection, "
     "compare -> null/Bool mapping), plus exhaustive walks of the leaf tables (is_truthy incl. 0-is-truthy, get_field, "
-    "accessors, get_type) under the 7 value kinds and the ascending-key (BTreeMap) representation.",
+    "accessors, get_type) under the 7 value kinds, the ascending-key (BTreeMap) representation, and the rules of the code the "
+    "core forms rest on (operator gate, equality and value-order tables of Variable, slice routine, operand binding powers).",
     "Trusted: the skeleton table; composition of arms into whole-expression semantics (structural induction, not decided).",
     "per-arm provenance analysis + dominance (short-circuit / null filter) + exhaustive leaf decision-tree walks",
 )
@@ -129,7 +130,8 @@ chk(
     "node) is extracted by provenance analysis of interpreter::interpret and must equal the specified table for all 18 node "
     "kinds; the same context is threaded through; only search and the four expression-reference builtins may call the "
     "evaluator; pipe and dot both build Subexpr(left, right) and a parenthesised expression yields the inner node; the "
-    "'depends on nothing else' clause is the C13 effect analysis.",
+    "'depends on nothing else' clause is the C13 effect analysis; the per-arm composition rows, the slice routine and the "
+    "truthiness table the truth-table forms denote through are run on the same facts.",
     "Trusted: structural induction from per-arm composition to the algebraic laws.",
     "provenance (origin) analysis of the evaluator's recursive call sites + who-may-call + effect analysis",
 )
@@ -151,7 +153,9 @@ chk(
     "map keyed by the given name (insert / remove / get with the unmodified key, empty when fresh, touched by nothing else, "
     "builtins = 26 plain registrations); runtime flow compile -> Expression -> Context -> lookup, the call protocol of the "
     "Function arm (arguments evaluated once each, in order, before the lookup; same vector and context passed on; "
-    "UnknownFunction on a miss; Expref unevaluated) and custom-function validation are dominance / provenance facts.",
+    "UnknownFunction on a miss; Expref unevaluated) and custom-function validation (arity decision, the validator of every "
+    "position incl. the guard that chooses between inputs[k] and the variadic type walked with positions around inputs.len(), "
+    "the kind predicates' table per kind of value) are dominance / provenance / decision-walk facts.",
     "Trusted: HashMap insert/remove/get semantics.",
     "provenance analysis + who-may-touch-field + dominance over rustc_private facts",
 )
@@ -163,8 +167,10 @@ chk(
     "two are known findings), the offset typestate of the evaluator (store after argument evaluation, save/restore around "
     "the invocation so nested calls cannot leave a stale offset, store before InvalidSlice, who-may-write), byte-offset "
     "provenance of every token / Ast / context offset (char_indices indices, expr.len() or 0) and the byte-vs-character "
-    "unit discipline of JmespathError::new (prefix delimited by byte index, newline/column bookkeeping). Not decided: the "
-    "rendered message text and caret placement.",
+    "unit discipline of JmespathError::new (prefix delimited by byte index, newline/column bookkeeping), the structure of the "
+    "rendering (the caret on its own line under the offending line, exactly once, message parts in order) and that the text "
+    "an error is located in is the text the parser was given (compile / Expression::new / Clone keep the (text, tree, runtime) "
+    "triple untouched). Not decided: the wording of the messages.",
     "Trusted: Number::as_f64 is total without arbitrary_precision; conversion errors of non-JSON input are out of scope.",
     "who-may-construct + provenance + offset typestate by dominance / post-dominance + unit (bytes vs chars) and finiteness qualifiers",
 )
@@ -177,7 +183,8 @@ chk(
     "with that element, extreme-element selection discipline of max_by/min_by/max/min, right-biased merge, pairwise "
     "keys/values, length/reverse by code points, avg's empty guard and sum/length quotient, map's unconditional push, "
     "not_null's first non-null, argument order of the string predicates and join, to_array/to_string/to_number/type case "
-    "tables, and the declared result kinds (return-tag analysis).",
+    "tables, the declared result kinds (return-tag analysis), and the tables the builtins rest on (Variable's equality and "
+    "value order, the Deserialize visitor rows behind to_number's parse).",
     "Trusted: documented behaviour of the std operations named in the rows; numeric results and JSON encoding of to_string.",
     "per-builtin provenance patterns + dominance + who-may-call (stable sort) + return-tag analysis",
 )
